@@ -127,6 +127,11 @@ class Gen:
                  if ret and n != self.current_routine]
         return names + (['round', 'floor', 'ceil', 'trunc', 'cycle'] if self.feature('builtins') else [])
 
+    def nothing_call(self):
+        """[nothing]: a call that delivers None (only meaningful as an argument or in an
+        assignment; the program must define `nothing` — see `program`)"""
+        return ('call', 'nothing', [])
+
     def call_expr(self, depth):
         r = self.rng
         f = r.choice(self.callable_routines())
@@ -134,7 +139,8 @@ class Gen:
             params = ['x']
         else:
             params = self.routines[f][0]
-        return ('call', f, [self.rvalue(depth, simple=True, allow_neg=True) for _ in params])
+        return ('call', f, [self.nothing_call() if self.feature('none_values', False) and r.random() < 0.12
+                            else self.rvalue(depth, simple=True, allow_neg=True) for _ in params])
 
     def expr(self, depth, logical=False):
         r = self.rng
@@ -408,6 +414,17 @@ class Gen:
             self.protected.discard(idx)
         if form == 'while':
             body.append(('assign', hdr[2], ('expr', ('bin', '+', ('var', hdr[2]), ('num', 1)))))
+        if self.current_routine is not None and getattr(self, 'routine_returns', None) is not None \
+                and r.random() < 0.35:
+            # a return from inside the loop (at any loop depth) — only variables known before
+            after0 = self.snapshot_scope()
+            self.restore_scope(saved)
+            rv = self.rvalue(1) if self.routine_returns else None
+            # a bare `return` takes a following value if there is one: keep it alone in a block
+            ret = ('if', self.condition(1), [('return', rv)], None) \
+                if (rv is None or r.random() < 0.6) else ('return', rv)
+            self.restore_scope(after0)
+            body.insert(r.randrange(0, len(body) + 1) if form != 'while' else 0, ret)
         if r.random() < 0.25 and self.feature('break'):
             pos = r.randrange(0, len(body) + 1)
             after = self.snapshot_scope()
@@ -463,6 +480,7 @@ class Gen:
         saved = self.snapshot_scope()
         self.locals = list(params)
         self.current_routine = name
+        self.routine_returns = returns
         saved_loop = self.loop_depth
         self.loop_depth = 0
         # recursion: guarded by a decreasing first parameter
@@ -483,6 +501,7 @@ class Gen:
         self.loop_depth = saved_loop
         self.locals = None
         self.current_routine = None
+        self.routine_returns = None
         self.restore_scope(saved)
         self.routines[name] = (params, returns)
         return [('define', name, params, body)]
@@ -494,7 +513,8 @@ class Gen:
             return self.assign()
         f = r.choice(names)
         params = self.routines[f][0]
-        return [('call', f, [self.rvalue(depth - 1, simple=True, allow_neg=True) for _ in params],
+        return [('call', f, [self.nothing_call() if self.feature('none_values', False) and r.random() < 0.12
+                             else self.rvalue(depth - 1, simple=True, allow_neg=True) for _ in params],
                  False)]
 
     def print_stmt(self):
@@ -574,6 +594,9 @@ class Gen:
 
     def program(self):
         out = []
+        if self.feature('none_values', False):
+            out.append(('define', 'nothing', [], [('return', None)]))
+            self.routines['nothing'] = ([], False)
         n = self.rng.randint(max(2, self.size // 2), self.size)
         for _ in range(n):
             out.extend(self.stmt(self.max_depth))
